@@ -1,51 +1,106 @@
 (* C11, HLL part -- serialize then deserialize is lossless.  Statements only; proofs in
-   Proofs/HllCodecProofs.v.
+   Proofs/HllCodecProofs.v (and Proofs/HllUnionProofs.v for the update steps).
    [hll_serialize] / [hll_deserialize] (Model/HllCodec.v) mirror HllSketch::serialize / deserialize
    byte by byte (List, HashSet, Array4 with its aux list, Array6, Array8), the REPAIRED reader
-   (defect D1: a list image was read into a list sized by its coupon count; /repo fix efc0a54).
-   [SrcOK lg_k arr cs s]: s represents the coupon list cs (C03).  [rt_ok lg_k cs s s'] says what
-   the copy s' is:
+   (/repo fix: efc0a54 list capacity, 2f7e0d8 list/set count consistency, 08d9c35 estimator fields).
+   [SrcOK lg_k arr cs s]: s is a well-formed sketch representing the coupon list cs (C03): what
+   HllSketch::new + updates build (c03_stream_is_source), what HllUnion::to_sketch returns
+   (c03_to_sketch_type_independent) and what the reader returns for a canonical image
+   (c11_hll_deserialized_is_source below).
+   [est_ok s] -- HYPOTHESIS of the round-trip theorems: the three estimator fields of an array-mode
+   sketch, written and decoded again, are finite and non-negative (the reader rejects the image
+   otherwise, fix 08d9c35).  True of every sketch the crate builds (sums of non-negative terms) but
+   NOT proved (needs an analysis of the binary64 sums); c11_hll_example exhibits it on concrete
+   array-mode sketches of all three types, and the correspondence run deserializes every image.
+   [rt_ok lg_k cs s s'] says what the copy s' is:
      list  -- the IDENTICAL list (8 slots, the same coupons in the same order) and type;
      set   -- same type, lg size and count; the rebuilt table holds exactly the coupons cs and
               satisfies the open-addressing invariant (the slot layout is not carried by the image);
      Hll4  -- the Array4 invariant of C02 for the SAME register file, same cur_min and
               num_at_cur_min (the aux map is rebuilt: same exceptions as a finite map);
-     Hll6 / Hll8 -- the same registers, the same num_zeros;
-     arrays -- the estimator fields are the 8-byte patterns decoded again ([est_reread]): that
-              float_of_bits (bits_of_float f) = f is NOT proved (tied by the correspondence run,
-              which compares hip/kxq0/kxq1 bit for bit); the out-of-order flag is kept. *)
-From DS Require Import Base.Prelude Model.Hll Model.HllCodec Proofs.HllBase Proofs.HllSet Proofs.HllArray4
+     Hll6 / Hll8 -- the same registers, the same num_zeros (Hll6: again a byte array);
+     arrays -- estimator = [est_reread] of the original's: kxq0, kxq1 are the 8-byte patterns decoded
+              again, the out-of-order flag is kept, and the HIP accumulator is the decoded pattern
+              for an in-order sketch and ZERO for an out-of-order one (the reader's
+              set_out_of_order(true)).  That float_of_bits (bits_of_float f) = f is NOT proved (tied
+              by the correspondence run, which compares hip/kxq0/kxq1 bit for bit).
+   NOT proved: byte-identical re-serialization serialize(deserialize(serialize s)) = serialize s in
+   general (it needs the bit-cast identity, and for out-of-order sketches a zero accumulator: the
+   crate guarantees the latter since fix e763c00 -- before it a union copy of an in-order Hll8 source
+   was out of order with a non-zero accumulator and its image changed on a round trip).  It is
+   checked by the twin oracle on every sketch and union result, and exhibited by c11_hll_example. *)
+From DS Require Import Base.Prelude Model.Hll Model.HllCodec Proofs.HllBase Proofs.HllSet Proofs.HllArray4 Proofs.HllRefine
   Proofs.HllUnionProofs Proofs.HllCodecProofs.
 Open Scope N_scope.
 
-(* any well-formed sketch (built, merged, deserialized; any type, mode, estimator state) *)
+(* any well-formed sketch (built, merged, deserialized; any type, mode) *)
 Theorem c11_hll_roundtrip :
-  forall lgk arrf cs s, SrcOK lgk arrf cs s -> list_lg_ok s ->
+  forall lgk arrf cs s, SrcOK lgk arrf cs s -> est_ok s ->
   exists s', hll_deserialize (hll_serialize s) = Ok s' /\ rt_ok lgk cs s s'.
 Proof. exact hll_roundtrip. Qed.
 
 (* every state reachable by updates (all lg_k, types, streams) *)
 Theorem c11_hll_roundtrip_of_stream :
   forall lgk t cs, 4 <= lgk <= 21 -> Forall valid cs ->
-  exists s s', run_stream hip_new hip_update hip_carry lgk t cs = Ok s /\
-    hll_deserialize (hll_serialize s) = Ok s' /\ rt_ok lgk cs s s'.
+  exists s, run_stream hip_new hip_update hip_carry lgk t cs = Ok s /\
+    (est_ok s -> exists s', hll_deserialize (hll_serialize s) = Ok s' /\ rt_ok lgk cs s s').
 Proof. exact hll_roundtrip_of_stream. Qed.
 
-(* the copy is a well-formed representation of the same abstract state: the theorems of C02 (further
-   updates) and C03 (merges) apply to it exactly as to the original.
-   PARTIAL for Hll6: the copy has the same registers and num_zeros, but SrcOK also speaks about reads
-   beyond slot k (the padding byte), which the image does not constrain. *)
-Theorem c11_hll_copy_is_wellformed_partial :
-  forall lgk arrf cs s s', SrcOK lgk arrf cs s -> rt_ok lgk cs s s' ->
-  (forall a, sk_mode s <> MArr6 a) -> SrcOK lgk arrf cs s'.
+(* the copy is a well-formed representation of the same abstract state (all modes, Hll6 included):
+   the theorems of C02 / C03 stated over SrcOK apply to it exactly as to the original *)
+Theorem c11_hll_copy_is_wellformed :
+  forall lgk arrf cs s s', SrcOK lgk arrf cs s -> rt_ok lgk cs s s' -> SrcOK lgk arrf cs s'.
 Proof. exact rt_src_ok. Qed.
+
+(* "the copy behaves identically under further updates": the original and its deserialized copy, fed
+   the same further coupons, are never stuck and keep the same lg_k, mode, count, coupon set and
+   register file.  (The estimator state is not compared: see est_reread above.) *)
+Theorem c11_hll_copy_same_under_updates :
+  forall lgk arrf cs s us, SrcOK lgk arrf cs s -> est_ok s -> Forall valid us ->
+  exists s' r r', hll_deserialize (hll_serialize s) = Ok s' /\
+    update_all hip_new hip_update hip_carry us s = Ok r /\ update_all hip_new hip_update hip_carry us s' = Ok r' /\
+    sk_lgk r = sk_lgk r' /\ sk_tag r = sk_tag r' /\ sk_len r = sk_len r' /\
+    (forall c, In c (sk_coupons r) <-> In c (sk_coupons r')) /\
+    (forall j, j < 2 ^ lgk -> sk_reg r j = sk_reg r' j).
+Proof. exact copy_same_under_updates. Qed.
+
+(* the update step on ANY well-formed source (not only on sketches built from scratch): never stuck,
+   again a well-formed source of the same type, representing the old coupons plus the new ones *)
+Theorem c11_hll_source_updates :
+  forall lgk arrf cs s us, SrcOK lgk arrf cs s -> Forall valid us ->
+  exists s', update_all hip_new hip_update hip_carry us s = Ok s' /\
+    SrcOK lgk (tag_flag (sk_tag s')) (rev us ++ cs) s' /\ sk_tgt s' = sk_tgt s /\
+    (arrf = true -> sk_tag s' = TagArray).
+Proof. exact src_updates. Qed.
+
+(* a list- / set-mode source after further updates shows the Spec state of its coupons plus the new
+   ones (mode by the distinct count, coupon set or registers): C02's statement, from any source *)
+Theorem c11_hll_source_updates_abs :
+  forall lgk cs s us, SrcOK lgk false cs s -> Forall valid us ->
+  exists s', update_all hip_new hip_update hip_carry us s = Ok s' /\ hll_abs_ok lgk (sk_tgt s) (rev us ++ cs) s'.
+Proof. exact src_updates_abs. Qed.
+
+(* the bridge: what the reader returns as Ok for a canonical image (set: at least 8 coupons; Hll4:
+   some register at cur_min -- every image written by the crate / Java / C++ is canonical) is a
+   well-formed source.  Non-canonical accepted images are outside these theorems (oracle only). *)
+Theorem c11_hll_deserialized_is_source :
+  forall bs s, BOK bs -> hll_deserialize bs = Ok s -> image_canonical s ->
+  exists cs, SrcOK (sk_lgk s) (tag_flag (sk_tag s)) cs s.
+Proof. exact hll_deserialize_src_ok. Qed.
 
 (* the list case in full: the copy is the original (this is what defect D1 broke) *)
 Theorem c11_hll_list_identical :
-  forall lgk t (l : hlist) ds, 4 <= lgk <= 21 -> ListInv l ds -> hl_lg l = 3 -> (length ds < 8)%nat ->
+  forall lgk t (l : hlist) ds, 4 <= lgk <= 21 -> ListInv l ds -> (length ds < 8)%nat ->
   Forall valid ds -> hll_deserialize (list_serialize l lgk t) = Ok (mkSketch lgk (MList l t)).
 Proof. exact list_roundtrip. Qed.
 
-(* non-vacuity: the example streams of C02 are valid inputs *)
-Example c11_hll_example : Forall valid Proofs.HllC02.ex_stream /\ Forall valid Proofs.HllC02.ex_stream2.
-Proof. exact Proofs.HllC02.ex_stream_valid. Qed.
+(* non-vacuity: array-mode sketches of all three types built from a 200-coupon stream satisfy est_ok,
+   their images are accepted and the copies re-serialize to the identical bytes *)
+Example c11_hll_example :
+  (exists s s', run_stream hip_new hip_update hip_carry 8 T4 Proofs.HllC02.ex_stream2 = Ok s /\ sk_tag s = TagArray /\ est_ok s /\
+    hll_deserialize (hll_serialize s) = Ok s' /\ hll_serialize s' = hll_serialize s) /\
+  (exists s s', run_stream hip_new hip_update hip_carry 8 T6 Proofs.HllC02.ex_stream2 = Ok s /\ sk_tag s = TagArray /\ est_ok s /\
+    hll_deserialize (hll_serialize s) = Ok s' /\ hll_serialize s' = hll_serialize s) /\
+  (exists s s', run_stream hip_new hip_update hip_carry 9 T8 Proofs.HllC02.ex_stream2 = Ok s /\ sk_tag s = TagArray /\ est_ok s /\
+    hll_deserialize (hll_serialize s) = Ok s' /\ hll_serialize s' = hll_serialize s).
+Proof. exact rt_example. Qed.
